@@ -762,6 +762,17 @@ func (x *Exec) safety(st *State, kind, what string, goal Term) {
 }
 
 func (x *Exec) storeP(st *State, p PtrV, v Value) {
+	if p.AIdx != nil {
+		q := p
+		q.AIdx, q.AElem = nil, nil
+		whole := x.loadP(st, q).(Scalar)
+		ts := x.flatten(v)
+		if len(ts) != 1 {
+			panic(engineErr("array field element of composite type unsupported"))
+		}
+		x.storeP(st, q, Scalar{sto(whole.T, *p.AIdx, ts[0]), whole.Typ})
+		return
+	}
 	if p.Elem {
 		x.storeElem(st, p, v)
 		return
@@ -770,6 +781,14 @@ func (x *Exec) storeP(st *State, p PtrV, v Value) {
 }
 
 func (x *Exec) loadP(st *State, p PtrV) Value {
+	if p.AIdx != nil {
+		q := p
+		q.AIdx, q.AElem = nil, nil
+		whole := x.loadP(st, q).(Scalar)
+		v, _ := x.unflatten(p.AElem, []Term{sel(whole.T, *p.AIdx)})
+		x.assumeWellTyped(st, v)
+		return v
+	}
 	if p.Elem {
 		return x.loadElem(st, p)
 	}
